@@ -633,4 +633,452 @@ theorem fromDec_sound (c : Cls) (v : ℚ) :
     show Except.ok (dec2ddm v).dec = _
     rw [h1]
 
+/-! ### 8. chains of conversions -/
+
+/-- the notation a value is held in (radians and arc-seconds are sinks and have no rational
+reading, so chains end there and are not part of the theorem) -/
+inductive Note where
+  | dec | hp | gon | obj
+  deriving DecidableEq
+
+/-- `Denotes n v a`: the value `v`, read in notation `n`, is a valid representation of the angle
+`a` (decimal degrees): a decimal number is itself, an HP number is what `hp2dec` accepts and
+reads, gradians are `0.9 g`, an object is well formed and `.dec()` gives `a`. -/
+def Denotes : Note → Val ℚ → ℚ → Prop
+  | .dec, .num x, a => a = x
+  | .hp, .num x, a => hp2dec x = .ok a
+  | .gon, .num x, a => a = gon2dec x
+  | .obj, .obj o, a => WF o ∧ o.dec = .ok a
+  | _, _, _ => False
+
+/-- source and target notation of the hops covered -/
+def hopSig : Hop → Option (Note × Note)
+  | .dec2hp => some (.dec, .hp) | .dec2hpa => some (.dec, .obj) | .dec2gon => some (.dec, .gon)
+  | .dec2gona => some (.dec, .obj) | .dec2dms => some (.dec, .obj) | .dec2ddm => some (.dec, .obj)
+  | .decAngle => some (.dec, .obj)
+  | .hp2dec => some (.hp, .dec) | .hp2deca => some (.hp, .obj) | .hp2gon => some (.hp, .gon)
+  | .hp2gona => some (.hp, .obj) | .hp2dms => some (.hp, .obj) | .hp2ddm => some (.hp, .obj)
+  | .hpAngle => some (.hp, .obj)
+  | .gon2dec => some (.gon, .dec) | .gon2deca => some (.gon, .obj) | .gon2hp => some (.gon, .hp)
+  | .gon2hpa => some (.gon, .obj) | .gon2dms => some (.gon, .obj) | .gon2ddm => some (.gon, .obj)
+  | .gonAngle => some (.gon, .obj)
+  | .mDec => some (.obj, .dec) | .mDeca => some (.obj, .obj) | .mHp => some (.obj, .hp)
+  | .mHpa => some (.obj, .obj) | .mGon => some (.obj, .gon) | .mGona => some (.obj, .obj)
+  | .mDms => some (.obj, .obj) | .mDdm => some (.obj, .obj)
+  | _ => none
+
+theorem hp_valid_of_ok {x a : ℚ} (h : hp2dec x = .ok a) :
+    HpValid (hpN x) ∧ a = if 0 ≤ x then hpAngle (hpN x) else -hpAngle (hpN x) := by
+  rw [hp2dec_spec] at h
+  by_cases hv : HpValid (hpN x)
+  · rw [if_pos hv] at h; cases h; exact ⟨hv, rfl⟩
+  · rw [if_neg hv] at h; cases h
+
+/-- `dec2hp` output as an HP number / HPAngle denotes the input within `hpTol` -/
+theorem dec2hp_denotes (a : ℚ) :
+    ∃ b, Denotes .hp (.num (dec2hp a)) b ∧ Denotes .obj (.obj (.hpA (dec2hp a))) b ∧
+      mkHP (dec2hp a) = .ok (.hpA (dec2hp a)) ∧ |b - a| ≤ hpTol a := by
+  obtain ⟨y, hy, hb⟩ := dec2hp_close a
+  refine ⟨y, hy, ⟨(hp_valid_of_ok hy).1, hy⟩, dec2hpa_ok a, hb⟩
+
+theorem dec_decA (x : ℚ) : (AngleObj.decA x).dec = .ok x := rfl
+theorem dec_hpA (x : ℚ) : (AngleObj.hpA x).dec = hp2dec x := rfl
+theorem dec_gonA (x : ℚ) : (AngleObj.gonA x).dec = .ok (gon2dec x) := rfl
+theorem dec_dmsA (s : DMS ℚ) : (AngleObj.dmsA s).dec = .ok s.dec := rfl
+theorem dec_ddmA (s : DDM ℚ) : (AngleObj.ddmA s).dec = .ok s.dec := rfl
+
+theorem ok_inj {x y : ℚ} (h : (Except.ok x : Except PyErr ℚ) = .ok y) : x = y := by
+  injection h
+
+theorem obj_hp {o : AngleObj ℚ} {a : ℚ} (hw : WF o) (hd : o.dec = .ok a) :
+    ∃ h b, o.hp = .ok h ∧ Denotes .hp (.num h) b ∧ |b - a| ≤ hpTol a ∧
+      (o.cls ≠ .HP → h = dec2hp a) := by
+  have tz : (0 : ℚ) ≤ hpTol a := hpTol_nonneg a
+  obtain ⟨b, h1, -, -, h4⟩ := dec2hp_denotes a
+  cases o with
+  | decA x =>
+    have e : x = a := ok_inj hd
+    subst e
+    exact ⟨dec2hp x, b, rfl, h1, h4, fun _ => rfl⟩
+  | hpA x =>
+    exact ⟨x, a, rfl, hd, by simpa using tz, fun h => absurd rfl h⟩
+  | gonA x =>
+    have e : gon2dec x = a := ok_inj hd
+    subst e
+    exact ⟨dec2hp (gon2dec x), b, rfl, h1, h4, fun _ => rfl⟩
+  | dmsA s =>
+    have e : s.dec = a := ok_inj hd
+    subst e
+    exact ⟨dec2hp s.dec, b, rfl, h1, h4, fun _ => rfl⟩
+  | ddmA s =>
+    have e : s.dec = a := ok_inj hd
+    subst e
+    exact ⟨dec2hp s.dec, b, rfl, h1, h4, fun _ => rfl⟩
+
+theorem obj_gon {o : AngleObj ℚ} {a : ℚ} (hd : o.dec = .ok a) :
+    ∃ g, o.gon = .ok g ∧ gon2dec g = a := by
+  cases o with
+  | decA x =>
+    have e : x = a := ok_inj hd
+    subst e; exact ⟨dec2gon x, rfl, (gon_exact x).2.1⟩
+  | hpA x =>
+    refine ⟨dec2gon a, ?_, (gon_exact a).2.1⟩
+    show hp2gon x = _
+    unfold hp2gon
+    have : hp2dec x = .ok a := hd
+    rw [this]; rfl
+  | gonA x =>
+    have e : gon2dec x = a := ok_inj hd
+    exact ⟨x, rfl, e⟩
+  | dmsA s =>
+    have e : s.dec = a := ok_inj hd
+    subst e; exact ⟨dec2gon s.dec, rfl, (gon_exact s.dec).2.1⟩
+  | ddmA s =>
+    have e : s.dec = a := ok_inj hd
+    subst e; exact ⟨dec2gon s.dec, rfl, (gon_exact s.dec).2.1⟩
+
+theorem obj_dms {o : AngleObj ℚ} {a : ℚ} (hw : WF o) (hd : o.dec = .ok a) :
+    o.dms = .error .AttributeError ∨ ∃ s, o.dms = .ok (.dmsA s) ∧ s.dec = a ∧ 0 ≤ s.second := by
+  cases o with
+  | decA x =>
+    have e : x = a := ok_inj hd
+    subst e; right; exact ⟨dec2dms x, rfl, (dec2dms_dec x).1, (dec2dms_dec x).2⟩
+  | hpA x =>
+    right
+    have hd' : hp2dec x = .ok a := hd
+    obtain ⟨-, ha⟩ := hp_valid_of_ok hd'
+    obtain ⟨h1, h2, -, -⟩ := hp2dms_exact x
+    exact ⟨hp2dms x, rfl, by rw [h1, ha], h2⟩
+  | gonA x =>
+    have e : gon2dec x = a := ok_inj hd
+    subst e; right; exact ⟨dec2dms (gon2dec x), rfl, (dec2dms_dec _).1, (dec2dms_dec _).2⟩
+  | dmsA s => left; rfl
+  | ddmA s =>
+    have e : s.dec = a := ok_inj hd
+    subst e; right; exact ⟨s.dms, rfl, (ddm_dms s hw).1, (ddm_dms s hw).2⟩
+
+theorem obj_ddm {o : AngleObj ℚ} {a : ℚ} (hw : WF o) (hd : o.dec = .ok a) :
+    o.ddm = .error .AttributeError ∨ ∃ s, o.ddm = .ok (.ddmA s) ∧ s.dec = a ∧ 0 ≤ s.minute := by
+  cases o with
+  | decA x =>
+    have e : x = a := ok_inj hd
+    subst e; right; exact ⟨dec2ddm x, rfl, (dec2ddm_dec x).1, (dec2ddm_dec x).2⟩
+  | hpA x =>
+    right
+    have hd' : hp2dec x = .ok a := hd
+    obtain ⟨-, ha⟩ := hp_valid_of_ok hd'
+    obtain ⟨h1, h2⟩ := hp2ddm_exact x
+    exact ⟨hp2ddm x, rfl, by rw [h1, ha], h2⟩
+  | gonA x =>
+    have e : gon2dec x = a := ok_inj hd
+    subst e; right; exact ⟨dec2ddm (gon2dec x), rfl, (dec2ddm_dec _).1, (dec2ddm_dec _).2⟩
+  | dmsA s =>
+    have e : s.dec = a := ok_inj hd
+    subst e; right; exact ⟨s.ddm, rfl, (dms_ddm s hw).1, (dms_ddm s hw).2⟩
+  | ddmA s => left; rfl
+
+theorem zero_tol (a : ℚ) : |a - a| ≤ hpTol a := by simpa using hpTol_nonneg a
+
+theorem denotes_dec {v : Val ℚ} {a : ℚ} (h : Denotes .dec v a) : v = .num a := by
+  cases v <;> simp [Denotes] at h; rw [h]
+theorem denotes_hp {v : Val ℚ} {a : ℚ} (h : Denotes .hp v a) : ∃ x, v = .num x ∧ hp2dec x = .ok a := by
+  cases v <;> simp [Denotes] at h; exact ⟨_, rfl, h⟩
+theorem denotes_gon {v : Val ℚ} {a : ℚ} (h : Denotes .gon v a) : ∃ x, v = .num x ∧ a = gon2dec x := by
+  cases v <;> simp [Denotes] at h; exact ⟨_, rfl, h⟩
+theorem denotes_obj {v : Val ℚ} {a : ℚ} (h : Denotes .obj v a) : ∃ o, v = .obj o ∧ WF o ∧ o.dec = .ok a := by
+  cases v <;> simp [Denotes] at h; exact ⟨_, rfl, h.1, h.2⟩
+
+/-- what each direct function does to a decimal-degree number -/
+theorem hop_from_dec (h : Hop) (d : Note) (hs : hopSig h = some (.dec, d)) (a : ℚ) :
+    ∃ w b, applyHop h (.num a) = .ok w ∧ Denotes d w b ∧ |b - a| ≤ hpTol a := by
+  obtain ⟨b, h1, h2, h3, h4⟩ := dec2hp_denotes a
+  cases h <;> simp only [hopSig, Option.some.injEq, Prod.mk.injEq, reduceCtorEq, false_and] at hs
+  · -- dec2hp
+    obtain ⟨-, rfl⟩ := hs
+    exact ⟨.num (dec2hp a), b, rfl, h1, h4⟩
+  · -- dec2hpa
+    obtain ⟨-, rfl⟩ := hs
+    refine ⟨.obj (.hpA (dec2hp a)), b, ?_, h2, h4⟩
+    show (dec2hpa a).map Val.obj = _
+    rw [dec2hpa_ok]; rfl
+  · obtain ⟨-, rfl⟩ := hs
+    exact ⟨.num (dec2gon a), a, rfl, ((gon_exact a).2.1).symm, zero_tol a⟩
+  · obtain ⟨-, rfl⟩ := hs
+    refine ⟨.obj (.gonA (dec2gon a)), a, rfl, ⟨trivial, ?_⟩, zero_tol a⟩
+    rw [dec_gonA, (gon_exact a).2.1]
+  · obtain ⟨-, rfl⟩ := hs
+    refine ⟨.obj (.dmsA (dec2dms a)), a, rfl, ⟨(dec2dms_dec a).2, ?_⟩, zero_tol a⟩
+    rw [dec_dmsA, (dec2dms_dec a).1]
+  · obtain ⟨-, rfl⟩ := hs
+    refine ⟨.obj (.ddmA (dec2ddm a)), a, rfl, ⟨(dec2ddm_dec a).2, ?_⟩, zero_tol a⟩
+    rw [dec_ddmA, (dec2ddm_dec a).1]
+  · obtain ⟨-, rfl⟩ := hs
+    exact ⟨.obj (.decA a), a, rfl, ⟨trivial, rfl⟩, zero_tol a⟩
+
+/-- … to a valid HP number `x` denoting `a` -/
+theorem hop_from_hp (h : Hop) (d : Note) (hs : hopSig h = some (.hp, d)) (x a : ℚ)
+    (hx : hp2dec x = .ok a) :
+    ∃ w b, applyHop h (.num x) = .ok w ∧ Denotes d w b ∧ |b - a| ≤ hpTol a := by
+  obtain ⟨hv, ha⟩ := hp_valid_of_ok hx
+  cases h <;> simp only [hopSig, Option.some.injEq, Prod.mk.injEq, reduceCtorEq, false_and] at hs
+  · -- hp2dec
+    obtain ⟨-, rfl⟩ := hs
+    refine ⟨.num a, a, ?_, rfl, zero_tol a⟩
+    show (hp2dec x).map Val.num = _
+    rw [hx]; rfl
+  · -- hp2deca
+    obtain ⟨-, rfl⟩ := hs
+    refine ⟨.obj (.decA a), a, ?_, ⟨trivial, rfl⟩, zero_tol a⟩
+    show (hp2deca x).map Val.obj = _
+    unfold hp2deca; rw [hx]; rfl
+  · -- hp2gon
+    obtain ⟨-, rfl⟩ := hs
+    refine ⟨.num (dec2gon a), a, ?_, ((gon_exact a).2.1).symm, zero_tol a⟩
+    show (hp2gon x).map Val.num = _
+    unfold hp2gon; rw [hx]; rfl
+  · -- hp2gona
+    obtain ⟨-, rfl⟩ := hs
+    refine ⟨.obj (.gonA (dec2gon a)), a, ?_, ⟨trivial, ?_⟩, zero_tol a⟩
+    · show (hp2gona x).map Val.obj = _
+      unfold hp2gona hp2gon; rw [hx]; rfl
+    · rw [dec_gonA, (gon_exact a).2.1]
+  · -- hp2dms
+    obtain ⟨-, rfl⟩ := hs
+    obtain ⟨h1, h2, -, -⟩ := hp2dms_exact x
+    refine ⟨.obj (.dmsA (hp2dms x)), a, rfl, ⟨h2, ?_⟩, zero_tol a⟩
+    rw [dec_dmsA, h1, ha]
+  · -- hp2ddm
+    obtain ⟨-, rfl⟩ := hs
+    obtain ⟨h1, h2⟩ := hp2ddm_exact x
+    refine ⟨.obj (.ddmA (hp2ddm x)), a, rfl, ⟨h2, ?_⟩, zero_tol a⟩
+    rw [dec_ddmA, h1, ha]
+  · -- HPAngle
+    obtain ⟨-, rfl⟩ := hs
+    refine ⟨.obj (.hpA x), a, ?_, ⟨hv, hx⟩, zero_tol a⟩
+    show (mkHP x).map Val.obj = _
+    rw [hpangle_accepts_iff_valid, if_pos hv]; rfl
+
+/-- … to gradians -/
+theorem hop_from_gon (h : Hop) (d : Note) (hs : hopSig h = some (.gon, d)) (x : ℚ) :
+    ∃ w b, applyHop h (.num x) = .ok w ∧ Denotes d w b ∧ |b - gon2dec x| ≤ hpTol (gon2dec x) := by
+  obtain ⟨b, h1, h2, h3, h4⟩ := dec2hp_denotes (gon2dec x)
+  cases h <;> simp only [hopSig, Option.some.injEq, Prod.mk.injEq, reduceCtorEq, false_and] at hs
+  · obtain ⟨-, rfl⟩ := hs
+    exact ⟨.num (gon2dec x), _, rfl, rfl, zero_tol _⟩
+  · obtain ⟨-, rfl⟩ := hs
+    exact ⟨.obj (.decA (gon2dec x)), _, rfl, ⟨trivial, rfl⟩, zero_tol _⟩
+  · obtain ⟨-, rfl⟩ := hs
+    exact ⟨.num (dec2hp (gon2dec x)), b, rfl, h1, h4⟩
+  · obtain ⟨-, rfl⟩ := hs
+    refine ⟨.obj (.hpA (dec2hp (gon2dec x))), b, ?_, h2, h4⟩
+    show (gon2hpa x).map Val.obj = _
+    unfold gon2hpa gon2hp; rw [h3]; rfl
+  · obtain ⟨-, rfl⟩ := hs
+    refine ⟨.obj (.dmsA (dec2dms (gon2dec x))), _, rfl, ⟨(dec2dms_dec _).2, ?_⟩, zero_tol _⟩
+    rw [dec_dmsA, (dec2dms_dec _).1]
+  · obtain ⟨-, rfl⟩ := hs
+    refine ⟨.obj (.ddmA (dec2ddm (gon2dec x))), _, rfl, ⟨(dec2ddm_dec _).2, ?_⟩, zero_tol _⟩
+    rw [dec_ddmA, (dec2ddm_dec _).1]
+  · obtain ⟨-, rfl⟩ := hs
+    exact ⟨.obj (.gonA x), _, rfl, ⟨trivial, rfl⟩, zero_tol _⟩
+
+theorem bind_ok {β γ : Type} (x : β) (f : β → Except PyErr γ) : (Except.ok x : Except PyErr β).bind f = f x := rfl
+theorem map_ok {β γ : Type} (x : β) (f : β → γ) : (Except.ok x : Except PyErr β).map f = .ok (f x) := rfl
+theorem hpa_of_ne (o : AngleObj ℚ) (hc : o.cls ≠ .HP) : o.hpa = o.hp.bind mkHP := by
+  cases o with
+  | hpA x => exact absurd rfl hc
+  | decA x => rfl
+  | gonA x => rfl
+  | dmsA x => rfl
+  | ddmA x => rfl
+theorem deca_of_ne (o : AngleObj ℚ) (hc : o.cls ≠ .DEC) : o.deca = o.dec.map .decA := by
+  cases o with
+  | decA x => exact absurd rfl hc
+  | hpA x => rfl
+  | gonA x => rfl
+  | dmsA x => rfl
+  | ddmA x => rfl
+theorem gona_of_ne (o : AngleObj ℚ) (hc : o.cls ≠ .GON) : o.gona = o.gon.map .gonA := by
+  cases o with
+  | gonA x => exact absurd rfl hc
+  | hpA x => rfl
+  | decA x => rfl
+  | dmsA x => rfl
+  | ddmA x => rfl
+
+/-- … every conversion method of a well-formed object -/
+theorem hop_from_obj (h : Hop) (d : Note) (hs : hopSig h = some (.obj, d)) (o : AngleObj ℚ) (a : ℚ)
+    (hw : WF o) (hd : o.dec = .ok a) :
+    applyHop h (.obj o) = .error .AttributeError ∨
+    ∃ w b, applyHop h (.obj o) = .ok w ∧ Denotes d w b ∧ |b - a| ≤ hpTol a := by
+  cases h <;> simp only [hopSig, Option.some.injEq, Prod.mk.injEq, reduceCtorEq, false_and] at hs
+  · -- .dec()
+    obtain ⟨-, rfl⟩ := hs
+    right
+    refine ⟨.num a, a, ?_, rfl, zero_tol a⟩
+    show o.dec.map Val.num = _
+    rw [hd]; rfl
+  · -- .deca()
+    obtain ⟨-, rfl⟩ := hs
+    by_cases hc : o.cls = .DEC
+    · left
+      cases o with
+      | decA x => rfl
+      | hpA x => simp [AngleObj.cls] at hc
+      | gonA x => simp [AngleObj.cls] at hc
+      | dmsA x => simp [AngleObj.cls] at hc
+      | ddmA x => simp [AngleObj.cls] at hc
+    · right
+      refine ⟨.obj (.decA a), a, ?_, ⟨trivial, rfl⟩, zero_tol a⟩
+      show o.deca.map Val.obj = _
+      rw [deca_of_ne o hc, hd, map_ok, map_ok]
+  · -- .hp()
+    obtain ⟨-, rfl⟩ := hs
+    obtain ⟨hh, b, e1, e2, e3, -⟩ := obj_hp hw hd
+    right
+    refine ⟨.num hh, b, ?_, e2, e3⟩
+    show o.hp.map Val.num = _
+    rw [e1]; rfl
+  · -- .hpa()
+    obtain ⟨-, rfl⟩ := hs
+    obtain ⟨hh, b, e1, e2, e3, e4⟩ := obj_hp hw hd
+    obtain ⟨b', -, g2, g3, g4⟩ := dec2hp_denotes a
+    by_cases hc : o.cls = .HP
+    · left
+      cases o with
+      | hpA x => rfl
+      | decA x => simp [AngleObj.cls] at hc
+      | gonA x => simp [AngleObj.cls] at hc
+      | dmsA x => simp [AngleObj.cls] at hc
+      | ddmA x => simp [AngleObj.cls] at hc
+    · right
+      have ehh := e4 hc
+      refine ⟨.obj (.hpA (dec2hp a)), b', ?_, g2, g4⟩
+      show o.hpa.map Val.obj = _
+      rw [hpa_of_ne o hc, e1, ehh, bind_ok, g3, map_ok]
+  · -- .gon()
+    obtain ⟨-, rfl⟩ := hs
+    obtain ⟨g, e1, e2⟩ := obj_gon hd
+    right
+    refine ⟨.num g, a, ?_, e2.symm, zero_tol a⟩
+    show o.gon.map Val.num = _
+    rw [e1]; rfl
+  · -- .gona()
+    obtain ⟨-, rfl⟩ := hs
+    obtain ⟨g, e1, e2⟩ := obj_gon hd
+    by_cases hc : o.cls = .GON
+    · left
+      cases o with
+      | gonA x => rfl
+      | hpA x => simp [AngleObj.cls] at hc
+      | decA x => simp [AngleObj.cls] at hc
+      | dmsA x => simp [AngleObj.cls] at hc
+      | ddmA x => simp [AngleObj.cls] at hc
+    · right
+      refine ⟨.obj (.gonA g), a, ?_, ⟨trivial, by rw [dec_gonA, e2]⟩, zero_tol a⟩
+      show o.gona.map Val.obj = _
+      rw [gona_of_ne o hc, e1, map_ok, map_ok]
+  · -- .dms()
+    obtain ⟨-, rfl⟩ := hs
+    rcases obj_dms hw hd with e | ⟨s, e1, e2, e3⟩
+    · left; show o.dms.map Val.obj = _; rw [e]; rfl
+    · right
+      refine ⟨.obj (.dmsA s), a, ?_, ⟨e3, by rw [dec_dmsA, e2]⟩, zero_tol a⟩
+      show o.dms.map Val.obj = _; rw [e1]; rfl
+  · -- .ddm()
+    obtain ⟨-, rfl⟩ := hs
+    rcases obj_ddm hw hd with e | ⟨s, e1, e2, e3⟩
+    · left; show o.ddm.map Val.obj = _; rw [e]; rfl
+    · right
+      refine ⟨.obj (.ddmA s), a, ?_, ⟨e3, by rw [dec_ddmA, e2]⟩, zero_tol a⟩
+      show o.ddm.map Val.obj = _; rw [e1]; rfl
+
+/-- one hop: either the method does not exist on that class (`AttributeError`, e.g.
+`DMSAngle.dms`), or the result is a valid representation, in the target notation, of the same
+angle up to `hpTol` (zero unless the hop writes HP digits) -/
+theorem hop_sound (h : Hop) (s d : Note) (hs : hopSig h = some (s, d)) (v : Val ℚ) (a : ℚ)
+    (hd : Denotes s v a) :
+    applyHop h v = .error .AttributeError ∨
+    ∃ w b, applyHop h v = .ok w ∧ Denotes d w b ∧ |b - a| ≤ hpTol a := by
+  cases s with
+  | dec => rw [denotes_dec hd]; exact Or.inr (hop_from_dec h d hs a)
+  | hp => obtain ⟨x, rfl, hx⟩ := denotes_hp hd; exact Or.inr (hop_from_hp h d hs x a hx)
+  | gon => obtain ⟨x, rfl, rfl⟩ := denotes_gon hd; exact Or.inr (hop_from_gon h d hs x)
+  | obj => obtain ⟨o, rfl, hw, ho⟩ := denotes_obj hd; exact hop_from_obj h d hs o a hw ho
+
+/-- a chain of hops whose notations fit together -/
+inductive ChainTyped : Note → List Hop → Note → Prop
+  | nil (n : Note) : ChainTyped n [] n
+  | cons {s m d : Note} {h : Hop} {t : List Hop} :
+      hopSig h = some (s, m) → ChainTyped m t d → ChainTyped s (h :: t) d
+
+/-- half a unit of the 9th decimal of the seconds, in degrees: `0.5·10⁻⁹″` -/
+def eps9 : ℚ := 1 / 2 / 10 ^ 9 / 3600
+/-- `0.5·10⁻⁸″` in degrees (HP resolution from 512°) -/
+def eps8 : ℚ := 1 / 2 / 10 ^ 8 / 3600
+
+theorem hpTol_le_eps8 (a : ℚ) : hpTol a ≤ eps8 := hpTol_le a
+theorem hpTol_eq_eps9 {a : ℚ} (h : |a| < 512) : hpTol a = eps9 := by unfold hpTol eps9; rw [if_pos h]
+
+/-- **chain_closed** (any length, any notation at each hop, any rational angle): a well-typed
+chain of conversions applied to a valid representation of `a` either stops at a method its class
+does not have, or ends in a valid representation of an angle within `len · 0.5·10⁻⁸″` of `a`. -/
+theorem chain_closed_any (hops : List Hop) (s d : Note) (ht : ChainTyped s hops d) (v : Val ℚ) (a : ℚ)
+    (hd : Denotes s v a) :
+    applyChain hops v = .error .AttributeError ∨
+    ∃ w b, applyChain hops v = .ok w ∧ Denotes d w b ∧ |b - a| ≤ hops.length * eps8 := by
+  induction ht generalizing v a with
+  | nil n => exact Or.inr ⟨v, a, rfl, hd, by simp⟩
+  | @cons s m d h t hs _ ih =>
+    rcases hop_sound h s m hs v a hd with e | ⟨w, b, e1, e2, e3⟩
+    · left; show (applyHop h v).bind (applyChain t) = _; rw [e]; rfl
+    · rcases ih w b e2 with e' | ⟨w', b', f1, f2, f3⟩
+      · left; show (applyHop h v).bind (applyChain t) = _; rw [e1, bind_ok, e']
+      · right
+        refine ⟨w', b', ?_, f2, ?_⟩
+        · show (applyHop h v).bind (applyChain t) = _; rw [e1, bind_ok, f1]
+        · have := hpTol_le_eps8 a
+          have h3 : |b' - a| ≤ |b' - b| + |b - a| := by
+            have := abs_add_le (b' - b) (b - a); simpa using this
+          simp only [List.length_cons, Nat.cast_add, Nat.cast_one]
+          linarith
+
+/-- **chain_closed**, the `1e-9″` form: when the angle stays below 512° along the chain
+(`|a| + len·ε < 512`), every hop costs at most `0.5·10⁻⁹″`, so the end of the chain denotes `a`
+within `len · 0.5·10⁻⁹″` — in particular with the same sign whenever `|a|` exceeds that bound. -/
+theorem chain_closed (hops : List Hop) (s d : Note) (ht : ChainTyped s hops d) (v : Val ℚ) (a : ℚ)
+    (hd : Denotes s v a) (hmag : |a| + hops.length * eps9 < 512) :
+    applyChain hops v = .error .AttributeError ∨
+    ∃ w b, applyChain hops v = .ok w ∧ Denotes d w b ∧ |b - a| ≤ hops.length * eps9 := by
+  induction ht generalizing v a with
+  | nil n => exact Or.inr ⟨v, a, rfl, hd, by simp⟩
+  | @cons s m d h t hs _ ih =>
+    have he : (0 : ℚ) ≤ eps9 := by unfold eps9; norm_num
+    simp only [List.length_cons, Nat.cast_add, Nat.cast_one] at hmag ⊢
+    have hlen : (0 : ℚ) ≤ (t.length : ℚ) * eps9 := by positivity
+    have ha512 : |a| < 512 := by nlinarith
+    rcases hop_sound h s m hs v a hd with e | ⟨w, b, e1, e2, e3⟩
+    · left; show (applyHop h v).bind (applyChain t) = _; rw [e]; rfl
+    · rw [hpTol_eq_eps9 ha512] at e3
+      have hb : |b| ≤ |a| + eps9 := by
+        have := abs_sub_abs_le_abs_sub b a; linarith
+      rcases ih w b e2 (by linarith) with e' | ⟨w', b', f1, f2, f3⟩
+      · left; show (applyHop h v).bind (applyChain t) = _; rw [e1, bind_ok, e']
+      · right
+        refine ⟨w', b', ?_, f2, ?_⟩
+        · show (applyHop h v).bind (applyChain t) = _; rw [e1, bind_ok, f1]
+        · have h3 : |b' - a| ≤ |b' - b| + |b - a| := by
+            have := abs_add_le (b' - b) (b - a); simpa using this
+          linarith
+
+/-- the sign clause: a result within `δ < |a|` of `a` has the sign of `a` (angles in (−1°, 0) included) -/
+theorem same_sign {a b δ : ℚ} (h : |b - a| ≤ δ) (hδ : δ < |a|) : (0 < a → 0 < b) ∧ (a < 0 → b < 0) := by
+  have := abs_le.mp h
+  constructor
+  · intro ha; rw [abs_of_pos ha] at hδ; linarith
+  · intro ha; rw [abs_of_neg ha] at hδ; linarith
+
+example : ChainTyped .dec [.dec2dms, .mHp, .hp2ddm, .mDec] .dec :=
+  .cons rfl (.cons rfl (.cons rfl (.cons rfl (.nil _))))
+
 end GeodeVerif.C08
